@@ -5,6 +5,7 @@ package classifier
 // C11: Normalize output lines up with Match positions and matches the same.
 
 import (
+	"bytes"
 	"fmt"
 	"regexp"
 	"strings"
@@ -106,6 +107,13 @@ func c11Check(ci interface{}) lib.Outcome {
 	// Normalize adds words to the dictionary: use a private classifier for it, the shared one only for Match
 	nc := buildClassifier(c.Thr, nil)
 	n := nc.Normalize(x)
+	// the returned text belongs to the caller: a later Normalize on the same classifier must not change it
+	keep := append([]byte{}, n...)
+	nc.Normalize([]byte("Permission is hereby granted, free of charge, to any person\nobtaining a copy"))
+	nc.Normalize(x[:len(x)/2])
+	if !bytes.Equal(keep, n) {
+		return lib.Outcome{Violation: fmt.Sprintf("%s: the text returned by Normalize changed after later Normalize calls on the same classifier", desc)}
+	}
 	// (a) k-th line of N holds the words Match attributes to line k of X
 	wx := words(x, true)
 	perLine := map[int][]string{}
